@@ -4,7 +4,7 @@ from hypothesis import strategies as st
 
 BOOL_IDS = ["a", "b", "c", "d", "e", "f", "g", "h"]
 INT_IDS = ["i0", "i1", "i2", "i3"]
-ODD_IDS = ["å", "x1", "9", "A b", "-"]
+ODD_IDS = ["Zz", "0k", "_u", "~w", "Ab", "å"]     # sort before / between / after the compound ids (N.., R.., VAR..)
 
 DIRECT = ("AtLeast", "AtMost", "All", "Any")
 DERIVED = ("Xor", "ExactlyOne", "XNor", "Imply", "Not")
@@ -14,7 +14,7 @@ N_CHILDREN = [1, 1, 2, 2, 2, 2, 3, 3, 3, 4, 4, 5, 6]
 
 
 @st.composite
-def leaf_pool(draw, profile="small", allow_const=False, max_bool=5, max_int=3, min_leaves=1, odd_ids=False):
+def leaf_pool(draw, profile="small", allow_const=False, max_bool=5, max_int=3, min_leaves=1, odd_ids=True):
     """list of leaf specs with distinct ids"""
     nb = draw(st.integers(0 if max_int else 1, max_bool))
     ni = draw(st.integers(0, max_int)) if max_int else 0
@@ -22,8 +22,10 @@ def leaf_pool(draw, profile="small", allow_const=False, max_bool=5, max_int=3, m
         nb = min_leaves - ni
     pool = []
     bool_ids = list(BOOL_IDS)
-    if odd_ids and draw(st.booleans()):
-        bool_ids = ODD_IDS + bool_ids
+    if odd_ids and draw(st.integers(0, 3)) == 0:
+        # ids that sort before / after the ids of compound propositions (sub propositions are kept sorted by id)
+        k = draw(st.integers(1, len(ODD_IDS)))
+        bool_ids = list(draw(st.permutations(ODD_IDS)))[:k] + bool_ids
     for i in range(nb):
         leaf = {"k": "leaf", "id": bool_ids[i], "b": [0, 1]}
         if draw(st.integers(0, 3)) == 0:
@@ -146,7 +148,7 @@ def _node(ctx, depth, negating=False):
 
 @st.composite
 def model_spec(draw, kinds=ALL_KINDS, depth=3, profile="small", allow_fix=False, allow_const_leaves=False,
-               share=True, explicit_p=60, max_bool=5, max_int=3, min_leaves=1, odd_ids=False, positive_only=False):
+               share=True, explicit_p=60, max_bool=5, max_int=3, min_leaves=1, odd_ids=True, positive_only=False):
     pool = draw(leaf_pool(profile=profile, allow_const=allow_const_leaves, max_bool=max_bool, max_int=max_int,
                           min_leaves=min_leaves, odd_ids=odd_ids))
     ctx = _Ctx(draw, pool, kinds, profile, allow_fix, 0, explicit_p, None, positive_only)
